@@ -14,7 +14,7 @@ RULE = ("x<<n and x>>n for shifting modes expand/trunc/keep x overflow saturate/
         "(expand mode sizes by the array-wide lowest set bit / largest magnitude); Hypothesis - boundary/random codes for n_word<=32, arrays up to 2-d. "
         "Non-trivial = n>=1 and (negative code or a bit shifted out/in past the word); distinct = distinct case keys.")
 ASSUMPTIONS = ['operands created from raw codes; n_word+n<=62', "x<<n in trunc/keep mode may clamp or wrap (statement's latitude)"]
-EXHAUSTIVE = True
+EXHAUSTIVE = False    # the whole quantifier is not enumerated; complete sub-domains are listed in EXHAUSTIVE_SUBDOMAINS
 EXHAUSTIVE_SUBDOMAINS = {'quick': ['all codes, n_word<=6, n_frac in {0,n_word//2}, counts 0..n_word+3, 3 shifting x 2 overflow modes, both directions; scalar and whole-format arrays'],
                          'thorough': ['same for n_word<=8']}
 REQUIRED_CLASSES = {'expand': 1000, 'keep/trunc': 1000, 'negative': 1000, 'bits-lost': 500, 'array': 300, 'n=0': 100}
